@@ -206,7 +206,7 @@ CHECKS["C11"] = {
     "rule": "a case = one generated history run 6 times. Non-trivial = a batch containing a successful login of an upgradeable user concurrent with an update/remove/add/set-admin of the same user; "
             "distinct = distinct (mode, kinds of the concurrent mutations, batch size)",
     "assumptions": ["requests at the Store interface; HTTP/SASL frontends add no shared state beyond it"],
-    "required_classes": {"all": ["batch:login-of-upgradeable-user-concurrent-with-mutation", "mode:local", "mode:", "free-running:local"]},
+    "required_classes": {"all": ["history:with-http-frontends", "batch:login-of-upgradeable-user-concurrent-with-mutation", "mode:local", "mode:", "free-running:local"]},
     "jobs": [
         J("linearizable", AGENT, "TestC11Linearizable", {"shards": 8, "checks": 40}, {"shards": 16, "checks": 1500}, toolchain="go126"),
         J("freerunning", AGENT, "TestC11FreeRunning|TestC11LoginThenChange", {"shards": 2, "n": 16}, {"shards": 4, "n": 32}, toolchain="go126", rapid=False),
